@@ -177,6 +177,10 @@ func initMacros() { // called at the end of the universe's init (ByName must be 
 	Macros["v2chain"] = OpsByName("Put(G1)", "Put(Ga)", "Put(Gb)", "Put(Gc)", "Put(G2)", "Put(GK)")
 	Macros["v2chain-no-last"] = OpsByName("Put(Ga)", "Put(Gb)", "Put(Gc)", "Put(GK)")
 	Macros["v1chain"] = OpsByName("Put(Va)", "Put(Vl)", "Put(Vb)")
+	// families stored next to an unrelated object, their virtual parents marked through the parent ID
+	// (offered by C02's parent-mark alphabet only)
+	Macros["parents-marked"] = OpsByName("Put(R2)", "Put(C2)", "Put(K)", "Put(E0)", "Put(E1)", "MarkGarbage(P)", "MarkRedundant(E)")
+	Macros["parents-marked-2"] = OpsByName("Put(R2)", "Put(C2)", "Put(K)", "Put(E0)", "Put(E1)", "MarkRedundant(P)", "MarkGarbage(E)")
 }
 
 // ChainMacroOps returns the chain-shape prefixes.
